@@ -69,6 +69,10 @@ def conv_case(rnd, cls, with_q=True):
     h = max(h, kh + (kh - 1) * (d - 1))
     w = max(w, kw_ + (kw_ - 1) * (d - 1))
   cin, cout = rnd.choice([1, 2]), rnd.choice([1, 2, 3])
+  groups = 1
+  if cls in ("QConv1D", "QConv2D") and rnd.random() < 0.25:    # grouped convolution (Keras `groups`)
+    groups = 2
+    cin, cout = rnd.choice([2, 4]), rnd.choice([2, 4])
   dm = rnd.choice([1, 2]) if cls == "QSeparableConv2D" else 1
   usebias = rnd.random() < 0.6
   hasact = with_q and rnd.random() < 0.6
@@ -81,6 +85,8 @@ def conv_case(rnd, cls, with_q=True):
   to_cl = (lambda a: np.moveaxis(np.asarray(a), 1, -1)) if cf else (lambda a: np.asarray(a))
   if cls in ("QConv1D", "QConv2D"):
     common["dilation_rate"] = d if one_d else (d, d)
+    if groups > 1:
+      common["groups"] = groups
   if cls in ("QConv1D", "QConv2D"):
     common.update(filters=cout, kernel_size=kw_ if one_d else (kh, kw_))
   elif cls == "QDepthwiseConv2D":
@@ -116,7 +122,7 @@ def conv_case(rnd, cls, with_q=True):
   rec = {r: (a, b) for r, a, b in log}
   g = {"sh": 1 if one_d else s, "sw": s, "dh": 1 if one_d else d, "dw": d, "pad": pad}
   ev = {"kind": "layer", "cls": cls, "g": g, "usebias": int(usebias), "hasact": int(hasact), "ph": 1, "pw": 1, "qm": 1,
-        "applied": applied, "dm": dm, "cf": int(cf)}
+        "applied": applied, "dm": dm, "cf": int(cf), "groups": groups}
   if not with_q:
     st = stock_for(cls, common)
     st.build((None,) + bshape)
